@@ -38,6 +38,11 @@ func scenariosFor(prop string) []scn {
 		both(flowParams{Sources: 1, Records: 2, Batch: 1, Dests: 1, AckMenu: okNack, DLQMenu: okNack, Stop: "stopwait"}, 2, 4)
 		both(flowParams{Sources: 1, Records: 2, Batch: 1, Dests: 2, AckMenu: okNack, Stop: "force"}, 1, 3)
 		both(flowParams{Sources: 1, Records: 2, Batch: 1, Dests: 2, AckMenu: []string{"ok", "err"}, ReadMenu: []string{"ok", "err"}, Stop: ""}, 1, 2)
+		// the DEFAULT dead-letter configuration (window 1, threshold 0: nothing is tolerated) while a node fails or the run is
+		// force-stopped with several records in flight: the records nacked by the teardown are neither dead-lettered nor acked
+		both(flowParams{Sources: 1, Records: 3, Batch: 1, Dests: 2, AckMenu: []string{"ok", "err"}, Window: 1, Thresh: 0, Stop: ""}, 2, 3)
+		both(flowParams{Sources: 1, Records: 3, Batch: 1, Dests: 1, AckMenu: []string{"ok", "defer", "err"}, Window: 1, Thresh: 0, Stop: "force"}, 2, 3)
+		both(flowParams{Sources: 1, Records: 3, Batch: 1, Dests: 1, AckMenu: onlyOK, ReadMenu: []string{"ok", "err"}, Window: 1, Thresh: 0, Stop: ""}, 2, 3)
 		// fan-out with a failing DLQ: a sibling branch votes for later positions after the release of an earlier one failed
 		both(flowParams{Sources: 1, Records: 3, Batch: 1, Dests: 2, AckMenu: okNack, DLQMenu: okNack, Stop: ""}, 2, 3)
 		both(flowParams{Sources: 1, Records: 5, Batch: 5, Dests: 2, AckMenu: []string{"ok", "n:00100", "n:01000"}, DLQMenu: okNack, Stop: ""}, 2, 3)
@@ -139,6 +144,8 @@ func scenariosFor(prop string) []scn {
 		// a processor error with a nack window that tolerates nothing: not absorbed by the DLQ, fatal
 		both(flowParams{Sources: 1, Records: 2, Batch: 1, Dests: 1, AckMenu: onlyOK, Window: 1, Thresh: 0, Procs: []procParam{{ID: "pp", Kinds: []string{"p", "e"}}}, Retries: 2}, 1, 2)
 		both(flowParams{Sources: 1, Records: 3, Batch: 3, Dests: 1, AckMenu: onlyOK, Window: 1, Thresh: 0, Procs: []procParam{{ID: "pp", Kinds: []string{"p", "e", "p"}}}, Retries: 2}, 1, 2)
+		// ... the same with a processor that runs two workers (v1 wraps it in a parallel node)
+		both(flowParams{Sources: 1, Records: 2, Batch: 1, Dests: 1, AckMenu: onlyOK, Window: 1, Thresh: 0, Procs: []procParam{{ID: "pp", Workers: 2, Kinds: []string{"p", "e"}}}, Retries: 2}, 1, 2)
 		// the DLQ connector itself fails while a rejected record is written to it: a DLQ write failure, fatal
 		both(flowParams{Sources: 1, Records: 2, Batch: 1, Dests: 1, AckMenu: okNack, DLQMenu: []string{"ok", "err"}, Retries: 2}, 2, 3)
 		both(flowParams{Sources: 1, Records: 3, Batch: 1, Dests: 1, AckMenu: okNack, Window: 2, Thresh: 1, Retries: 1}, 2, 3)
@@ -172,9 +179,14 @@ func scenariosFor(prop string) []scn {
 		both(flowParams{Sources: 1, Records: 1, Batch: 1, Dests: 2, AckMenu: onlyOK, GateDestOpen: true, Ctl: []string{"stop", "start", "stopwait"}, Retries: 1}, 2, 3)
 		// the store refuses a status write (e.g. the write of "running" at the end of Start)
 		both(flowParams{Sources: 1, Records: 1, Batch: 1, Dests: 1, AckMenu: onlyOK, Faults: true, Ctl: []string{"stopwait", "start", "stopwait"}}, 2, 3)
+		// ... and a Start is repeated after one whose own status write was refused
+		both(flowParams{Sources: 1, Records: 1, Batch: 1, Dests: 1, AckMenu: onlyOK, Faults: true, Ctl: []string{"stopwait", "start", "start", "stopwait"}}, 1, 2)
 		// the first Start cannot build its nodes (a plugin cannot be dispensed): nothing may stay reserved, the next Start works
 		both(flowParams{Sources: 1, Records: 1, Batch: 1, Dests: 1, AckMenu: onlyOK, Procs: []procParam{{ID: "pp"}}, FailDispense: []string{"d0"}, Ctl: []string{"start", "stopwait"}}, 1, 2)
 		both(flowParams{Sources: 1, Records: 1, Batch: 1, Dests: 1, AckMenu: onlyOK, Procs: []procParam{{ID: "pp"}}, FailDispense: []string{"s0"}, Ctl: []string{"start", "stopwait"}}, 1, 2)
+		// two sources, the second one cannot be opened at the first Start: everything the failed Start opened must be
+		// released, the next Start works
+		both(flowParams{Sources: 2, Records: 1, Batch: 1, Dests: 1, AckMenu: onlyOK, GateSrcOpen: []string{"s1"}, Ctl: []string{"start", "stopwait"}}, 1, 2)
 		// a slow status store: the write of "running" is still in flight while the run already fails and ends
 		both(flowParams{Sources: 1, Records: 1, Batch: 1, Dests: 1, AckMenu: onlyOK, ReadMenu: []string{"ok", "err", "fatal"}, LatePut: true, Ctl: []string{"wait"}, Retries: -1}, 2, 3)
 		both(flowParams{Sources: 1, Records: 1, Batch: 1, Dests: 1, AckMenu: []string{"ok", "err"}, LatePut: true, Ctl: []string{"wait", "start"}, Retries: 1}, 2, 3)
@@ -184,6 +196,9 @@ func scenariosFor(prop string) []scn {
 		v1(flowParams{Sources: 1, Records: 3, Batch: 1, Dests: 1, AckMenu: onlyOK, Procs: pp, Reconf: []string{"A"}, ProcOpenMenu: []string{"ok", "err"}}, 2, 4)
 		v1(flowParams{Sources: 1, Records: 3, Batch: 1, Dests: 2, AckMenu: onlyOK, Procs: pp, Reconf: []string{"A"}, ProcOpenMenu: []string{"ok"}, Stop: "stopwait"}, 2, 3)
 		v1(flowParams{Sources: 1, Records: 3, Batch: 1, Dests: 1, AckMenu: onlyOK, Procs: pp, Reconf: []string{"A", "B"}, ProcOpenMenu: []string{"ok", "err"}}, 2, 3)
+		// the new processor takes a minute to open (slow but responding): whatever the caller is told must be what happened
+		v1(flowParams{Sources: 1, Records: 3, Batch: 1, Dests: 1, AckMenu: onlyOK, Procs: pp, Reconf: []string{"A"}, ProcOpenMenu: []string{"ok", "slow"}}, 2, 3)
+		v1(flowParams{Sources: 1, Records: 3, Batch: 1, Dests: 1, AckMenu: onlyOK, Procs: pp, Apply: []string{"proc"}, ProcOpenMenu: []string{"ok", "slow"}}, 2, 3)
 		v1(flowParams{Sources: 1, Records: 2, Batch: 1, Dests: 1, AckMenu: onlyOK, Procs: pp, Reconf: []string{"A", "B", "cancelA"}, ProcOpenMenu: []string{"ok"}}, 3, 4)
 		v1(flowParams{Sources: 1, Records: 2, Batch: 1, Dests: 1, AckMenu: onlyOK, Procs: pp, Reconf: []string{"A", "cancelA"}, ProcOpenMenu: []string{"ok", "err"}}, 2, 4)
 		v1(flowParams{Sources: 1, Records: 3, Batch: 1, Dests: 1, AckMenu: okNack, Procs: []procParam{{ID: "pp", Gate: true}}, Reconf: []string{"A"}, ProcOpenMenu: []string{"ok"}}, 2, 3)
@@ -204,6 +219,9 @@ func scenariosFor(prop string) []scn {
 		both(flowParams{Sources: 1, Records: 2, Batch: 1, Dests: 1, AckMenu: onlyOK, Procs: pp, Apply: []string{"proc+stale"}}, 2, 3)
 		both(flowParams{Sources: 1, Records: 2, Batch: 1, Dests: 1, AckMenu: onlyOK, Procs: pp, Apply: []string{"conn+noauth"}}, 2, 3)
 		both(flowParams{Sources: 1, Records: 2, Batch: 1, Dests: 1, AckMenu: onlyOK, Procs: pp, Apply: []string{"proc", "||conn"}}, 2, 3)
+		// a restart-class apply whose restart fails (the second source cannot be opened): cleanly stopped, and it can be
+		// started again
+		both(flowParams{Sources: 2, Records: 2, Batch: 1, Dests: 1, AckMenu: onlyOK, Procs: pp, Apply: []string{"conn"}, GateSrcOpen: []string{"s1"}, Ctl: []string{"start", "stopwait"}}, 1, 2)
 		// an unauthorised apply arriving while the pipeline waits for its recovery restart
 		both(flowParams{Sources: 1, Records: 2, Batch: 1, Dests: 1, AckMenu: []string{"ok", "err"}, Procs: pp, Apply: []string{"conn+noauth"}, Retries: 1}, 2, 3)
 		// a restart-class apply is draining the pipeline while a second, in-place apply is planned and submitted
@@ -220,6 +238,9 @@ func scenariosFor(prop string) []scn {
 		// a store that needs 2.5s per commit (slow, but responding) while the pipeline is stopped gracefully
 		both(flowParams{Sources: 1, Records: 2, Batch: 1, Dests: 1, AckMenu: onlyOK, Stop: "stopwait", Bundle: 1, CommitDelaysMs: []int{0, 2500, 2500, 2500, 2500}}, 1, 2)
 		both(flowParams{Sources: 1, Records: 3, Batch: 1, Dests: 1, AckMenu: onlyOK, Stop: "stopwait", CommitDelaysMs: []int{0, 2500, 2500, 2500, 2500}}, 1, 2)
+		// the store refuses position flushes (twice in a row at bound 2) and the pipeline is then stopped gracefully:
+		// the stop must still complete
+		both(flowParams{Sources: 1, Records: 3, Batch: 1, Dests: 1, AckMenu: onlyOK, Stop: "stopwait", Faults: true, Bundle: 1}, 2, 3)
 		// system shutdown: StopAll (a graceful stop that carries a reason) followed by Wait
 		both(flowParams{Sources: 1, Records: 3, Batch: 1, Dests: 1, AckMenu: onlyOK, Stop: "stopall"}, 2, 3)
 		both(flowParams{Sources: 1, Records: 2, Batch: 1, Dests: 2, AckMenu: []string{"ok", "defer"}, Stop: "stopall"}, 2, 3)
@@ -232,7 +253,21 @@ func preemptScenariosFor(prop string) []scn {
 	var out []scn
 	v1 := func(p flowParams, q, t int) { p.Engine = "v1"; out = append(out, scn{p, q, t}) }
 	v2 := func(p flowParams, q, t int) { p.Engine = "v2"; out = append(out, scn{p, q, t}) }
+	// two per-source workers of the funnel engine converge on the shared destination branch(es): a worker preempted
+	// anywhere between its read and its acks while the other one runs
+	v2workers := func() {
+		pts := []string{"worker.go", "destination.go", "source.go"}
+		v2(flowParams{Sources: 2, Records: 2, Batch: 1, Dests: 1, AckMenu: onlyOK, Stop: "", MaxOcc: 3, PointOnly: pts}, 0, 1)
+		v2(flowParams{Sources: 2, Records: 2, Batch: 2, Dests: 2, AckMenu: onlyOK, Stop: "", MaxOcc: 2, PointOnly: pts}, 0, 1)
+		// ... and the destination rejects one of the records: the rejection must land on the right source's record
+		v2(flowParams{Sources: 2, Records: 1, Batch: 1, Dests: 1, AckMenu: okNack, Stop: "", MaxOcc: 2, PointOnly: pts}, 1, 2)
+	}
 	switch prop {
+	case "C09":
+		// a destination that confirms several writes in ONE response, with the engine's own goroutines preempted between the
+		// write and the hand-over to the acker: a legal reply shape whose effect depends on the interleaving
+		v1(flowParams{Sources: 1, Records: 2, Batch: 1, Dests: 1, AckMenu: []string{"ok", "defer"}, Stop: "stopwait"}, 1, 2)
+		v2(flowParams{Sources: 1, Records: 2, Batch: 1, Dests: 1, AckMenu: []string{"ok", "defer"}, Stop: "stopwait"}, 1, 2)
 	case "C06":
 		v1(flowParams{Sources: 1, Records: 2, Batch: 1, Dests: 1, AckMenu: []string{"ok", "defer"}, Stop: "stopwait"}, 1, 2)
 		v2(flowParams{Sources: 1, Records: 2, Batch: 1, Dests: 1, AckMenu: []string{"ok", "defer"}, Stop: "stopwait"}, 1, 2)
@@ -244,6 +279,7 @@ func preemptScenariosFor(prop string) []scn {
 		if prop == "C04" || verifkit.Thorough() {
 			v1(flowParams{Sources: 1, Records: 2, Batch: 1, Dests: 2, AckMenu: okNack, Stop: ""}, 1, 2)
 		}
+		v2workers()
 		if prop == "C01" {
 			// a destination that is still opening (its node does not receive) fails while the other destination's
 			// confirmation is in flight: the fan-out gives up on the clone it could not hand over
@@ -253,6 +289,8 @@ func preemptScenariosFor(prop string) []scn {
 				v1(flowParams{Sources: 1, Records: 1, Batch: 1, Dests: 2, AckMenu: onlyOK, GateDestOpen: true, Blocked: []string{"d1"}, Stop: "force"}, 2, 2)
 			}
 		}
+	case "C05":
+		v2workers()
 	case "C02":
 		v1(flowParams{Sources: 1, Records: 2, Batch: 1, Dests: 1, AckMenu: onlyOK, Stop: "stopwait", Bundle: 2}, 1, 2)
 		v2(flowParams{Sources: 1, Records: 2, Batch: 1, Dests: 1, AckMenu: onlyOK, Stop: "stopwait", Bundle: 2}, 1, 2)
